@@ -1,6 +1,6 @@
 PROPERTIES = ['C06', 'C02']
 BOUNDS = {
-    'quick': 'length 0..4 (enumerated; merge_sort 0..2 with pointers / 0..3 index-based, exchange_sort and bubble_sort 0..3 with pointers, stable_partition 0..2 pointers / 0..3 index-based), element values / predicate parameters / middle / nth symbolic; comparators: default overload, greater, key-only with identity tags (stability); pointer iterators and an index-based random-access iterator wrapper (partition also forward-only, gnome_sort also bidirectional)',
+    'quick': 'move-observable element type (ELEM=2) for partition, stable_partition, inplace_merge at length 0, 2, 3; otherwise length 0..4 (enumerated; merge_sort 0..2 with pointers / 0..3 index-based, exchange_sort and bubble_sort 0..3 with pointers, stable_partition 0..2 pointers / 0..3 index-based), element values / predicate parameters / middle / nth symbolic; comparators: default overload, greater, key-only with identity tags (stability); pointer iterators and an index-based random-access iterator wrapper (partition also forward-only, gnome_sort also bidirectional)',
     'thorough': 'length 0..5 for sort/stable_sort/insertion_sort/gnome_sort/nth_element/inplace_merge and (index-based iterator) bubble_sort/exchange_sort, 0..4 for partial_sort and pointer exchange_sort/stable_partition(index-based; pointers 0..3), merge_sort 0..3 (pointers) / 0..4 (index-based), partition 0..6; additionally the struct element type (key, tag)',
 }
 ASSUMPTIONS = ['alg_spec: bubble_sort/exchange_sort compare iterators with <; for raw pointers CBMC models the comparison on integer addresses that may wrap, which makes the loop bound of bubble_sort unprovable from length 4 on: those two are checked with pointers up to length 3 and with the index-based random-access iterator wrapper (IT=4) beyond',
@@ -56,6 +56,10 @@ def queries(tier, prop='C06'):
             if q and cmp == 2 and e not in ('merge_sort', 'exchange_sort', 'stable_sort', 'insertion_sort', 'bubble_sort'): continue
             if e in ('partition', 'stable_partition') and cmp != 0: continue
             for n in range(0, cap(e, 4) + 1): out.append(one(e, n, 4, cmp, 0, ub, budget))
+    # move-observable element type (ELEM=2, see alg_common.h): the partitioning / merging algorithms that move elements
+    for e in ('partition', 'stable_partition', 'inplace_merge'):
+        for n in ((0, 2, 3) if q else range(0, cap(e, 0) + 1)):
+            if n <= cap(e, 0) or e != 'stable_partition': out.append(one(e, n, 0, 0, 2, ub, budget))
     if ub:
         out = [x for x in out if x['cfg']['LN'] in (0, 3)]
     return out
